@@ -298,73 +298,69 @@ Inductive sec_val := SvNone | SvScalar (z : Z) | SvList (l : list Z).
 Record pruned_call := PrunedCall { qc_rgrid : rad_choice; qc_radius : RAD; qc_rsec : list RV;
                                    qc_dsec : sec_val; qc_ssec : sec_val; qc_center : CT; qc_rotate : Z }.
 
-Definition from_pruned_fanout (atnums : list Z) (atcoords : list CT) (radius : radius_arg)
+(* the value of the variable d_sectors / s_sectors while from_pruned normalises them: an int, None, or a
+   sequence with one entry per atom *)
+Inductive secarg := AInt (z : Z) | ANone | ASeq (l : list sec_val).
+Definition arg_of_d (d : dsec_arg) : secarg := match d with DsInt z => AInt z | DsList l => ASeq (map SvList l) end.
+Definition arg_of_s (s : ssec_arg) : secarg :=
+  match s with SsNone => ANone | SsInt z => AInt z | SsList l => ASeq (map SvList l) end.
+Definition is_int (a : secarg) : bool := match a with AInt _ => true | _ => false end.      (* isinstance(x, (int, np.integer)) *)
+Definition is_none (a : secarg) : bool := match a with ANone => true | _ => false end.      (* x is None *)
+(* [x] * natoms puts x itself into the list; only translated under an isinstance-int guard on x *)
+Definition elem_of (a : secarg) : sec_val := match a with AInt z => SvScalar z | _ => SvNone end.
+Definition int_of (a : secarg) : Z := match a with AInt z => z | _ => 0%Z end.
+(* len(x): TypeError on an int and on None *)
+Definition seq_of (a : secarg) : option (list sec_val) := match a with ASeq l => Some l | _ => None end.
+
+(* the statements of from_pruned that normalise d_sectors / s_sectors, as a function
+   natoms -> r_sectors -> (d_sectors, s_sectors) -> (d_sectors, s_sectors); the one of the current source is
+   re-translated on every run (C07_gen.v: norm_sectors_gen) *)
+Definition normaliser := nat -> list (list RV) -> secarg -> secarg -> secarg * secarg.
+
+(* everything after the normalisation *)
+Definition from_pruned_core (atnums : list Z) (atcoords : list CT) (radius : radius_arg)
+           (r_sectors : list (list RV)) (d s : secarg) (rgrid : rgrid_arg) (rotate : Z) : option (list pruned_call) :=
+  let natoms := length atcoords in
+  match seq_of d, seq_of s with                                                (* len(...) *)
+  | Some d2, Some s2 =>
+      if negb (length d2 =? length r_sectors) then None                        (* ValueError *)
+      else if negb (length s2 =? length r_sectors) then None                   (* ValueError *)
+      else
+        (* radius_atom = [radius] * natoms if isinstance(radius, (float, np.float64)) else radius *)
+        let radius_atom := match radius with RadScalar r => repeat r natoms | RadSeq l => l end in
+        mapM (fun i =>
+                match nth_error atnums i with
+                | Some a =>
+                    match pick_rgrid rgrid i a, nth_error radius_atom i, nth_error r_sectors i,
+                          nth_error d2 i, nth_error s2 i, nth_error atcoords i with
+                    | Some rad, Some ra, Some rs, Some dd, Some ss, Some c =>
+                        Some (PrunedCall rad ra rs dd ss c rotate)
+                    | _, _, _, _, _, _ => None
+                    end
+                | None => None
+                end) (seq 0 (length atnums))
+  | _, _ => None                                                               (* TypeError *)
+  end.
+
+Definition from_pruned_fanout_with (norm : normaliser) (atnums : list Z) (atcoords : list CT) (radius : radius_arg)
            (r_sectors : list (list RV)) (d_sectors : dsec_arg) (s_sectors : ssec_arg)
            (rgrid : rgrid_arg) (rotate : Z) : option (list pruned_call) :=
   if negb (length atnums =? length atcoords) then None                         (* ValueError *)
   else
-    let natoms := length atcoords in
-    (* if isinstance(d_sectors, (int, np.integer)): d_sectors = [d_sectors] * natoms *)
-    let d1 := match d_sectors with DsInt z => repeat (SvScalar z) natoms | DsList l => map SvList l end in
-    (* if s_sectors is not None: d_sectors = [None] * natoms  else: s_sectors = [None] * natoms;
-       then len(d_sectors), len(s_sectors) are taken: len(int) raises TypeError *)
-    let ds := match s_sectors with
-              | SsNone => Some (d1, repeat SvNone natoms)
-              | SsInt _ => None
-              | SsList l => Some (repeat SvNone natoms, map SvList l)
-              end in
-    match ds with
-    | None => None
-    | Some (d2, s2) =>
-        if negb (length d2 =? length r_sectors) then None                      (* ValueError *)
-        else if negb (length s2 =? length r_sectors) then None                 (* ValueError *)
-        else
-          (* radius_atom = [radius] * natoms if isinstance(radius, (float, np.float64)) else radius *)
-          let radius_atom := match radius with RadScalar r => repeat r natoms | RadSeq l => l end in
-          mapM (fun i =>
-                  match nth_error atnums i with
-                  | Some a =>
-                      match pick_rgrid rgrid i a, nth_error radius_atom i, nth_error r_sectors i,
-                            nth_error d2 i, nth_error s2 i, nth_error atcoords i with
-                      | Some rad, Some ra, Some rs, Some dd, Some ss, Some c =>
-                          Some (PrunedCall rad ra rs dd ss c rotate)
-                      | _, _, _, _, _, _ => None
-                      end
-                  | None => None
-                  end) (seq 0 (length atnums))
-    end.
+    let ds := norm (length atcoords) r_sectors (arg_of_d d_sectors) (arg_of_s s_sectors) in
+    from_pruned_core atnums atcoords radius r_sectors (fst ds) (snd ds) rgrid rotate.
 
 (* the documented meaning of the arguments ("If a number is given, then the same number of degrees is
-   used for all sectors of all atoms"; s_sectors likewise): what each atom should receive *)
+   used for all sectors of all atoms"; s_sectors likewise; s_sectors wins over d_sectors) *)
 Definition doc_sectors (x : Z) (rs : list RV) : sec_val := SvList (repeat x (S (length rs))).
-Definition from_pruned_documented (atnums : list Z) (atcoords : list CT) (radius : radius_arg)
-           (r_sectors : list (list RV)) (d_sectors : dsec_arg) (s_sectors : ssec_arg)
-           (rgrid : rgrid_arg) (rotate : Z) : option (list pruned_call) :=
-  if negb (length atnums =? length atcoords) then None
-  else
-    let natoms := length atcoords in
-    let d1 := match d_sectors with DsInt z => map (doc_sectors z) r_sectors | DsList l => map SvList l end in
-    let ds := match s_sectors with
-              | SsNone => (d1, repeat SvNone natoms)
-              | SsInt z => (repeat SvNone natoms, map (doc_sectors z) r_sectors)
-              | SsList l => (repeat SvNone natoms, map SvList l)
-              end in
-    let (d2, s2) := ds in
-    if negb (length d2 =? length r_sectors) then None
-    else if negb (length s2 =? length r_sectors) then None
-    else
-      let radius_atom := match radius with RadScalar r => repeat r natoms | RadSeq l => l end in
-      mapM (fun i =>
-              match nth_error atnums i with
-              | Some a =>
-                  match pick_rgrid rgrid i a, nth_error radius_atom i, nth_error r_sectors i,
-                        nth_error d2 i, nth_error s2 i, nth_error atcoords i with
-                  | Some rad, Some ra, Some rs, Some dd, Some ss, Some c =>
-                      Some (PrunedCall rad ra rs dd ss c rotate)
-                  | _, _, _, _, _, _ => None
-                  end
-              | None => None
-              end) (seq 0 (length atnums)).
+Definition norm_documented : normaliser := fun natoms r_sectors d s =>
+  let d1 := match d with AInt z => ASeq (map (doc_sectors z) r_sectors) | _ => d end in
+  match s with
+  | ANone => (d1, ASeq (repeat SvNone natoms))
+  | AInt z => (ASeq (repeat SvNone natoms), ASeq (map (doc_sectors z) r_sectors))
+  | ASeq _ => (ASeq (repeat SvNone natoms), s)
+  end.
+Definition from_pruned_documented := from_pruned_fanout_with norm_documented.
 
 (* AtomGrid.from_pruned takes sequences: exactly one of d_sectors / s_sectors is a list, the other None *)
 Definition pruned_call_ok (c : pruned_call) : bool :=
@@ -417,9 +413,9 @@ Definition mol_from_size atnums atcoords size rgrid aim rotate store : option (@
   | Some calls => by_hand build_size atnums calls aim store
   end.
 
-Definition mol_from_pruned atnums atcoords radius r_sectors d_sectors s_sectors rgrid aim rotate store
+Definition mol_from_pruned (norm : @normaliser RV) atnums atcoords radius r_sectors d_sectors s_sectors rgrid aim rotate store
   : option (@molgrid T) :=
-  match from_pruned_fanout default_params atnums atcoords radius r_sectors d_sectors s_sectors rgrid rotate with
+  match from_pruned_fanout_with default_params norm atnums atcoords radius r_sectors d_sectors s_sectors rgrid rotate with
   | None => None
   | Some calls => by_hand build_pruned atnums calls aim store
   end.
